@@ -369,6 +369,27 @@ def serve {Op : Type} (fromDiff : J → J → List Op) (hs : List (Handler × Bo
   | .ok ops => .ok (buildResponse (sel.map (fun h => (act h).error)) (sel.flatMap (fun h => (act h).warnings)) ops)
   | .error e => .error e
 
+/-! ## the review request: which object is reviewed -/
+
+/-- `raw_body = new_body if new_body is not None else old_body` with `new_body = request.object`,
+    `old_body = request.oldObject` (absent key = `None`): the object given to the handlers, to their
+    filters and — `patch = patches.Patch(body=body)` — the reference the JSON patch is computed
+    against. The apiserver applies the returned patch to `request.object`; only a DELETE review has
+    no `object` (there `oldObject` is the one under review). -/
+def reviewedBody (new old : Option J) : Option J :=
+  match new with
+  | some n => some n
+  | none => old
+
+/-- `serve_admission_request` from the request payload on: `none` stands for `MissingDataError`
+    ("Either old or new object is missing"), raised before any handler runs. -/
+def serveReview {Op : Type} (fromDiff : J → J → List Op) (hs : List (Handler × Bool)) (c : Cause)
+    (act : Handler → Act) (new old : Option J) (patch : List (String × J)) (fns : List Fn) :
+    Option (Except DictErr (Response Op)) :=
+  match reviewedBody new old with
+  | none => none
+  | some b => some (serve fromDiff hs c act b patch fns)
+
 /-! ## the managed webhook configuration (`build_webhooks`) as far as operations are concerned -/
 
 /-- `'operations': list(handler.operations or ['*'])` of the rule generated for the handler's own
